@@ -36,7 +36,7 @@ TARGETS = [
     "sigma.exceptions:SigmaError.__eq__",
 ]
 BOUNDS = {
-    "mutations": "one mutation per document: every key path of the 4 base documents x {delete, replace by one of 17 replacement values of every YAML type}; thorough adds pairs of mutations on the rule document",
+    "mutations": "one mutation per document: every key path of the 4 base documents x {delete, replace by one of 20 replacement values of every YAML type (incl. infinity, a numeric text that overflows to infinity, a 400-digit integer)}; thorough adds pairs of mutations on the rule document",
     "scalars": "symbolic str len <= 3 (quick) / 4 (thorough) in id, date, modified, status, level, timespan, name, title, correlation type, condition operator count",
     "outside": "arbitrarily nested YAML; more than two simultaneous faults; YAML text level (documents are dicts, as produced by a YAML loader)",
 }
@@ -99,7 +99,7 @@ COLL2 = [
 ]
 BASES = [("rule", RULE), ("corr", CORR), ("filter", FILT), ("coll", COLL), ("rule", RULE2), ("coll", COLL2)]
 
-REPL = [None, True, 0, -1, 1.5, "", "x", "not a thing", [], ["x"], [None], [["x"]], {}, {"k": "v"}, {1: 2}, [{"k": "v"}], datetime.date(2024, 1, 1)]
+REPL = [None, True, 0, -1, 1.5, "", "x", "not a thing", [], ["x"], [None], [["x"]], {}, {"k": "v"}, {1: 2}, [{"k": "v"}], datetime.date(2024, 1, 1), float("inf"), "1e999", 10**400]
 
 
 def paths_of(doc, prefix=()):
